@@ -1020,21 +1020,34 @@ def _constructor_fields(ctx: Ctx) -> None:
     fi = repo.func("moptipyapps.ttp.instance", "Instance.__new__")
     params = set(fi.params)
     n = 0
+    from sa.srcmodel import inline_locals
+    pairs: list[tuple[ast.stmt, ast.Attribute, ast.expr]] = []
     for st in ast.walk(fi.node):
-        if not (isinstance(st, ast.Assign) and len(st.targets) == 1
-                and isinstance(st.targets[0], ast.Attribute)
-                and isinstance(st.targets[0].value, ast.Name)):
+        if not isinstance(st, (ast.Assign, ast.AnnAssign)) or getattr(
+                st, "value", None) is None:
             continue
-        fld = st.targets[0].attr
+        for tg in (st.targets if isinstance(st, ast.Assign)
+                   else [st.target]):
+            if isinstance(tg, ast.Attribute):
+                pairs.append((st, tg, st.value))
+            elif isinstance(tg, ast.Tuple) and isinstance(
+                    st.value, ast.Tuple) and len(tg.elts) == len(
+                    st.value.elts):
+                pairs += [(st, t_, v_) for t_, v_ in zip(
+                    tg.elts, st.value.elts) if isinstance(t_, ast.Attribute)]
+    for st, tg, v in pairs:
+        if not isinstance(tg.value, ast.Name):
+            continue
+        fld = tg.attr
         if fld not in params:
             continue
-        v = st.value
+        v = inline_locals(fi.node, v)
         label = None
         if isinstance(v, ast.Call) and v.args and ast.unparse(
                 v.func).endswith("check_int_range"):
             if len(v.args) > 1 and isinstance(v.args[1], ast.Constant):
                 label = v.args[1].value
-            v = v.args[0]
+            v = inline_locals(fi.node, v.args[0])
         if not isinstance(v, ast.Name):
             continue
         n += 1
